@@ -1,12 +1,14 @@
 import ScVerif.C01.Drv
 import ScVerif.C01.Nested
+import ScVerif.C01.NestedColl
 /-!
 Driver handler for C01 with nested calls: `handleS` of `Drv.lean` plus
 
 ```
 nest site=<chk|bf|af> k=<n>      -> ok        the next n lines are the calls the callback at `site` of the
-<vset … | vget …>   (n times)    -> queued    write after them makes on the same Value
+<call>              (n times)    -> queued    write after them makes on the same Value / Collection
 vset msg=<msg> <write opts>      -> val=… err=… ev=[…] in=[<val>,<err>|<msg>;…] | st=… clk=n
+upd|add id=<id> msg=<msg> <opts> -> val=… err=… ev=[…] ids=[…] created=n in=[…] | st=[…] clk=n
 ```
 -/
 namespace ScVerif.C01
@@ -30,6 +32,50 @@ def parseVOp? : List String → Option (VOp Msg Mask)
     let ro ← parseReadReq? kv
     pure (.get ro)
   | _ => none
+
+def parseCOp? : List String → Option (COp Msg Mask)
+  | "upd" :: rest => do
+    let kv ← parseKV rest
+    let id ← kvGet kv "id"
+    let msg ← (kvGet kv "msg").bind parseMsg?
+    let wr ← parseWriteReq? kv
+    pure (.update id msg wr)
+  | "add" :: rest => do
+    let kv ← parseKV rest
+    let id ← kvGet kv "id"
+    let msg ← (kvGet kv "msg").bind parseMsg?
+    let wr ← parseWriteReq? kv
+    pure (.add id msg wr)
+  | "del" :: rest => do
+    let kv ← parseKV rest
+    let id ← kvGet kv "id"
+    let wr ← parseWriteReq? kv
+    pure (.delete id wr)
+  | "get" :: rest => do
+    let kv ← parseKV rest
+    let id ← kvGet kv "id"
+    let ro ← parseReadReq? kv
+    pure (.get id ro)
+  | "list" :: rest => do
+    let kv ← parseKV rest
+    let ro ← parseReadReq? kv
+    pure (.list ro)
+  | _ => none
+
+def showCRes : CRes Msg → String
+  | .got v => showOptMsg v
+  | .listed vs => "[" ++ "+".intercalate (vs.map (fun kv => showMsg kv.2)) ++ "]"
+  | .wrote o => s!"{showOptMsg o.val},{showErr o.err}"
+
+def handleNestC (cfg : FCfg) (s : CState Msg (List Nat)) (site : Site) (queued : List (List String))
+    (isAdd : Bool) (rest : List String) : Option (DrvState × String) := do
+  let calls ← queued.mapM parseCOp?
+  let kv ← parseKV rest
+  let id ← kvGet kv "id"
+  let msg ← (kvGet kv "msg").bind parseMsg?
+  let wr ← parseWriteReq? kv
+  let (o, s', rs) := if isAdd then Coll.addN cfg s id msg wr site calls else Coll.updateN cfg s id msg wr site calls
+  pure (.coll cfg s', showCOut o ++ " in=" ++ showList (rs.map showCRes) ++ " | " ++ showCState s')
 
 def showVRes : VRes Msg → String
   | .got v => showOptMsg v
@@ -64,6 +110,15 @@ def handleN (st : NSt) (toks : List String) : NSt × String :=
       match handleNest cfg s site acc rest with
       | some (b, a) => ({ base := b, pend := none }, a)
       | none => ({ st with pend := none }, "!bad-op")
+    | _ => ({ st with pend := none }, "!bad-op")
+  | some (site, 0, acc), op :: rest =>
+    match st.base with
+    | .coll cfg s =>
+      if op = "upd" || op = "add" then
+        match handleNestC cfg s site acc (op = "add") rest with
+        | some (b, a) => ({ base := b, pend := none }, a)
+        | none => ({ st with pend := none }, "!bad-op")
+      else ({ st with pend := none }, "!bad-op")
     | _ => ({ st with pend := none }, "!bad-op")
   | some _, _ => ({ st with pend := none }, "!bad-op")
 
